@@ -30,8 +30,12 @@ class TickRecorder:
         self.keep = []                 # keeps every segment alive so that id() is never reused
         self.celltype = {}
         self.bnd = set()
+        self.retpops = set()           # addresses of the `pop` of a RETURN <label> statement
         di = module.debug_info
         if di is not None:
+            for st in di.stmts:
+                if type(st.node).__name__ == 'ReturnStmt' and st.end_offset > st.start_offset:
+                    self.retpops.add(st.start_offset)
             for st in di.stmts:
                 # clauses of a CASE line are recorded like statements but are parts of one
                 if st.end_offset > st.start_offset and not type(st.node).__name__.endswith('CaseClause'):
@@ -69,7 +73,7 @@ class TickRecorder:
             return
         if instr is None:
             self.cur = {'pc': cpu.pc, 'ins': {'b': 'invalid', 't': '', 'a': [], 'dev': '', 'dop': ''}, 'top': [], 'n': 0,
-                        'd0': len(cpu.stack), 'bnd': False, 'callproc': False, 'st': [], 'rdt': '', '_w': [], 'vals': []}
+                        'd0': len(cpu.stack), 'bnd': False, 'callproc': False, 'st': [], 'rdt': '', '_w': [], 'vals': [], 'retpop': False}
             return
         b, t = split_op(instr.op)
         st = cpu.stack
@@ -100,7 +104,8 @@ class TickRecorder:
             else:
                 vals.append(['r', 0])
         cur = {'pc': cpu.pc, 'ins': ins, 'top': top, 'n': n, 'd0': len(st), 'bnd': cpu.pc in self.bnd,
-               'callproc': False, 'st': [], 'rdt': '', '_w': [], 'vals': vals}
+               'callproc': False, 'st': [], 'rdt': '', '_w': [], 'vals': vals,
+               'retpop': b == 'pop' and cpu.pc in self.retpops}
         try:
             if b == 'call':
                 ti = cpu.get_instruction_at(operands[0])[0]
